@@ -224,7 +224,7 @@ BARTYPES = ['', '', '', '', '||', '|!', '|!:', '|:', '!|:', ':|!', ':|!|:', ':||
 
 
 @st.composite
-def barlines(draw, number=None, hidden=False):
+def barlines(draw, number=None, hidden=False, force_hidden=False):
     eq = draw(st.sampled_from(['=', '=', '=', '==']))
     ty = draw(st.sampled_from(BARTYPES))
     f = draw(st.sampled_from(['', '', '', ';']))
@@ -232,7 +232,7 @@ def barlines(draw, number=None, hidden=False):
         num = draw(st.sampled_from(['', '1', '7', '12', '130']))
     else:
         num = str(number) if draw(st.integers(0, 3)) else ''
-    if hidden and draw(st.integers(0, 3)) == 0:
+    if force_hidden or hidden and draw(st.integers(0, 3)) == 0:
         # invisible barline: a barline token (it opens a measure, it is listed), deliberately not exported
         return {'k': 'bar', 't': eq + num + '-' + ty + f, 'e': eq + ty + f, 'cat': 'BARLINES', 'hidden': True}
     return {'k': 'bar', 't': eq + num + ty + f, 'e': eq + ty + f, 'cat': 'BARLINES'}
